@@ -18,6 +18,9 @@ CP = "hta.analyzers.critical_path_analysis"
 
 
 def run(db, chk) -> None:
+    from ..specs.discipline import check_stateless
+    check_stateless(db, chk, "C09.R-stateless", ['hta.analyzers.critical_path_analysis'])      # the result is a function of the arguments: no state kept between calls, caller's Trace untouched
+    chk.floor("C09.R-stateless", 4)
     m = db.mod(CP)
     f = m.func("CPGraph.critical_path")
     v = m.func("CPGraph._validate_graph")
@@ -35,6 +38,24 @@ def run(db, chk) -> None:
     chk.ob("C09.R1-key-agreement", "the attribute written per edge at construction is the attribute the longest-path computation maximises", wkeys.get("weight") == "edge.weight" and lp_key == "weight", where,
            found={"written": wkeys, "maximised": lp_key}, accepted={"weight": "edge.weight", "maximised": "weight"}, why="another key makes every path weigh its number of edges")
     chk.ob("C09.R1-key-agreement", "longest path is computed on the graph itself", len(lp[0].args) >= 1 and H.name_id(lp[0].args[0]) == "self", where, found=ast.unparse(lp[0]), accepted="nx.dag_longest_path(self, weight='weight')")
+    # the search ranges over ALL nodes: no restricted topological order, no default weight other than networkx's
+    to = next((kw.value for kw in lp[0].keywords if kw.arg == "topo_order"), lp[0].args[3] if len(lp[0].args) > 3 else None)
+    if to is None or (isinstance(to, ast.Constant) and to.value is None):
+        tv, tdesc = True, "none (networkx derives the order of the whole graph)"
+    else:
+        te = H.expand(f, to)
+        if isinstance(te, ast.Name):
+            ds = H.defs_of(f, te.id)
+            te = ds[0] if len(ds) == 1 else te
+        tdesc = " ".join(ast.unparse(te).split())[:160]
+        full = any(H.match(pat, te) is not None for pat in ("nx.topological_sort(self)", "list(nx.topological_sort(self))", "tuple(nx.topological_sort(self))"))
+        filtered = any(isinstance(n, (ast.ListComp, ast.GeneratorExp)) and any(g.ifs for g in n.generators) for n in ast.walk(te)) or \
+            any(isinstance(n, ast.Subscript) and isinstance(n.slice, ast.Slice) for n in ast.walk(te)) or any(isinstance(n, ast.Call) and H.name_id(n.func) == "filter" for n in ast.walk(te))
+        tv = True if full else (False if filtered else None)
+    chk.ob("C09.R1-key-agreement", "the longest-path search ranges over every node of the graph (no restricted topological order)", tv, where, found=tdesc, accepted="topo_order absent, None, or the full nx.topological_sort(self)",
+           why="restricting the order to one component (or a prefix) reports the heaviest path of that part only: a heavier chain elsewhere is missed")
+    extra = sorted(kw.arg for kw in lp[0].keywords if kw.arg not in ("weight", "topo_order", "default_weight"))
+    chk.ob("C09.R1-key-agreement", "no other argument changes what is maximised", not extra and len(lp[0].args) <= 4, where, found=extra, accepted="G, weight[, default_weight, topo_order]", nontrivial=False)
     tgt = [t for t, val, s in H.assignments(f) if H.is_self_attr(t, "critical_path_nodes")]
     src_ok = any(val is lp[0] for t, val, s in H.assignments(f) if H.is_self_attr(t, "critical_path_nodes"))
     chk.ob("C09.R1-key-agreement", "critical_path_nodes receives the longest path", src_ok, where, found=len(tgt), accepted="self.critical_path_nodes = nx.dag_longest_path(...)")
